@@ -308,12 +308,42 @@ class OpenModel:
         if pe is not None:
             pe = strip_ids(pe)
             if isinstance(pe, tuple) and pe[0] == "var" and v == "None":
-                out.add("var_none:%s_%s" % (pe[1], pe[2]))
+                # "no previous chunk" only if the carried value is set to `Some(..)` unconditionally by every later assignment: a value
+                # that an iteration may leave / make `None` again (`prev = chunk.truncated.map(..)`) says nothing about being the first chunk
+                if self._carried_always_some(pe[1], pe[2]):
+                    out.add("var_none:%s_%s" % (pe[1], pe[2]))
             elif isinstance(pe, tuple) and pe[0] == "field" and isinstance(pe[1], tuple) and pe[1] and pe[1][0] == "agg" and v == "None" \
                     and field_assigned(self.g, self.P.live, pe[2]):
                 # loop-carried state kept in a field of a local struct value
                 out.add("var_none:%s" % pe[2])
         return out
+
+    def _carried_always_some(self, iid, l):
+        inst = next((i for i in self.g.insts if i.id == iid), None) if not isinstance(self.g.insts, dict) else self.g.insts.get(iid)
+        if inst is None:
+            return True
+        body = inst.body
+        defs = self.g.prog.defs(inst.key)
+
+        def kinds(loc, depth=0):
+            out = set()
+            for d in defs.get(loc, []):
+                if d[0] != "s":
+                    out.add("other")
+                    continue
+                st = body["blocks"][d[1]]["stmts"][d[2]]
+                if st["k"] != "assign" or st["p"]["proj"]:
+                    out.add("other")
+                    continue
+                rv = st["rv"]
+                if rv["k"] == "agg" and rv.get("adt") == "std::option::Option":
+                    out.add(rv.get("variant"))
+                elif rv["k"] == "use" and rv["a"]["k"] in ("copy", "move") and not rv["a"]["p"]["proj"] and depth < 4:
+                    out |= kinds(rv["a"]["p"]["l"], depth + 1)
+                else:
+                    out.add("other")
+            return out or {"other"}
+        return kinds(l) <= {"None", "Some"}
 
     def _byte_pred(self, ckey):
         """'ne0' / 'eq0' when the closure is nothing but a comparison of a u8 with the constant 0"""
